@@ -353,6 +353,122 @@ func (k *c04ctx) lp(fn *ssa.Function) *linProver {
 	return lp
 }
 
+// c04helperPost: postcondition of a helper h that hands a wire length back in result idx.  On
+// every return the result is either a constant (largest: cmax) or proved <= parameter prm + d
+// (d = 0, or -1 when even `<= prm - 1` holds on all of them: a limit check that is off by one);
+// prm < 0 with ok: every return hands back a constant.
+type c04post struct {
+	prm  int
+	d    int64
+	cmax int64
+	ok   bool
+}
+
+func (k *c04ctx) c04helperPost(h *ssa.Function, idx int) c04post {
+	lp := k.lp(h)
+	var rets []*ssa.Return
+	allInstrs(h, func(in ssa.Instruction) {
+		if r, ok := in.(*ssa.Return); ok && retResults(r) != nil {
+			rets = append(rets, r)
+		}
+	})
+	if len(rets) == 0 {
+		return c04post{}
+	}
+	po := c04post{prm: -1, ok: true}
+	var open []*ssa.Return // returns handing back a non-constant
+	for _, r := range rets {
+		res := retResults(r)
+		if idx >= len(res) || res[idx] == nil {
+			return c04post{}
+		}
+		if v, isC := constInt(res[idx]); isC {
+			if v > po.cmax {
+				po.cmax = v
+			}
+			continue
+		}
+		open = append(open, r)
+	}
+	if len(open) == 0 {
+		return po
+	}
+	for j, prm := range h.Params {
+		if !isIntType(prm.Type()) {
+			continue
+		}
+		for _, d := range []int64{-1, 0} {
+			all := true
+			for _, r := range open {
+				cx := lp.newCtx(r)
+				if !lp.proveAt(r, lp.lin(retResults(r)[idx], cx), linAtom(prm).add(linConst(d)), 0, nil) {
+					all = false
+					break
+				}
+			}
+			if all {
+				po.prm, po.d = j, d
+				return po
+			}
+		}
+	}
+	return c04post{}
+}
+
+// c04helperBounds: a length obtained from a helper that already checks it against a limit it
+// receives as parameter (`n, err := readLength(r, MaxX, ...)`) carries the helper's postcondition
+// `n <= limit argument` in the caller; the roles (which constant, non-zero, accepts-max) are still
+// judged by R1 at the caller's sinks.
+func (k *c04ctx) c04helperBounds() {
+	posts := map[*ssa.Function]c04post{}
+	for _, fn := range k.fns {
+		for _, s := range k.lens.byFn[fn] {
+			if s.val == nil || calleeIs(s.call, c04pQV, "Read") {
+				continue
+			}
+			h := staticCallee(s.call)
+			if h == nil {
+				continue
+			}
+			idx, isDerived := k.lens.derived[h]
+			if !isDerived {
+				continue
+			}
+			po, done := posts[h]
+			if !done {
+				po = k.c04helperPost(h, idx)
+				posts[h] = po
+			}
+			if !po.ok {
+				continue
+			}
+			lp := k.lp(fn)
+			cx := lp.newCtx(s.call)
+			V := lp.lin(s.val, cx)
+			const why = "postcondition of the length-reading helper"
+			if po.prm < 0 {
+				lp.pre = append(lp.pre, linFact{V.sub(linConst(po.cmax)), why})
+				continue
+			}
+			args := s.call.Common().Args
+			if po.prm >= len(args) {
+				continue
+			}
+			A := lp.lin(args[po.prm], cx)
+			switch {
+			case A.isConst():
+				b := A.k + po.d
+				if po.cmax > b {
+					b = po.cmax
+				}
+				lp.pre = append(lp.pre, linFact{V.sub(linConst(b)), why})
+			case po.cmax <= 0 && po.d == 0 && isUnsigned(args[po.prm].Type()):
+				lp.pre = append(lp.pre, linFact{V.sub(A), why})
+			}
+		}
+	}
+}
+
 // ---------------------------------------------------------------------------
 // R1 sinks
 
@@ -2378,6 +2494,44 @@ func (k *c04ctx) ruleR3() {
 			}
 			return 2, p.InstrPos(at)
 		}
+		// a temporary merged from several paths (`established := false; if !fastOpen { read; established = true }`):
+		// each incoming value is judged on the edge it arrives by
+		if ph, isPhi := resolve(est).(*ssa.Phi); isPhi && depth < 3 && len(ph.Edges) == len(ph.Block().Preds) {
+			verdict, detail := 0, ""
+			for i, e := range ph.Edges {
+				pb := ph.Block().Preds[i]
+				if len(pb.Instrs) == 0 {
+					return 3, "Established is initialised with a computed value at " + p.InstrPos(at)
+				}
+				term := pb.Instrs[len(pb.Instrs)-1]
+				var v int
+				var d string
+				switch {
+				case isConstBool(e, false) || isConstBool(resolve(e), false):
+					v = 0
+				case isConstBool(e, true) || isConstBool(resolve(e), true):
+					pred := respOK
+					if orig != nil {
+						pred = respOKOn(orig)
+					}
+					okEdge := guardedBy(term, pred)
+					if iff, isIf := term.(*ssa.If); isIf && !okEdge && len(pb.Succs) == 2 && pb.Succs[0] != pb.Succs[1] {
+						okEdge = pred(iff.Cond, pb.Succs[0] == ph.Block())
+					}
+					if okEdge {
+						v = 1
+					} else {
+						v, d = 2, p.InstrPos(term)
+					}
+				default:
+					v, d = c04est(fn, term, e, orig, depth+1)
+				}
+				if v == 2 || (v == 3 && verdict != 2) || (v == 1 && verdict == 0) {
+					verdict, detail = v, d
+				}
+			}
+			return verdict, detail
+		}
 		ei := paramIdx(fn, est)
 		if ei < 0 || depth >= 3 {
 			return 3, "Established is initialised with a computed value at " + p.InstrPos(at)
@@ -2563,6 +2717,7 @@ func checkC04(c *Check) {
 		}
 	}
 	k.collectLens()
+	k.c04helperBounds()
 	// the writers come first: R1's "largest legal padding" is what they can draw
 	k.ruleWriters()
 	k.ruleR1()
